@@ -32,18 +32,28 @@ CHECKS = {
  "C19": ("fault_enumeration", "fault injection: strace SIGKILL injection at every state-changing syscall of a storage operation, read-back oracle in a fresh process",
          "For every scenario (Set old x new sizes, SaveEntity new/overwrite, DeleteEntity, Delete, NewIPTransport first start / unchanged restart / structural change) the baseline syscall trace is enumerated and the child is killed before each state-changing syscall on a fresh copy; the kill is confirmed from the trace; oracle: written key old-or-new in full, neighbours byte-identical, Entities() succeeds. Exhaustive per scenario for the syscall sequence the build under test performs.",
          "covers process kills between file-system operations, not power loss or torn single writes; trusted base: strace 6.1", "DESIGN.md §5 C19"),
+ "C01": ("exploration", "runtime monitoring: attacker histories against a real transport with refusal / no-disclosure (planted canaries) / no-change invariants checked after every request, EVENT fences, a legitimate controller interleaved",
+         "Generated histories (all sequences of length <= 2 over 26 operations, random ones up to 12 steps) on one or two attacker connections: plaintext requests to every protected endpoint, pair-setup / pair-verify fragments and forgeries, ciphertext under attacker-derivable keys; after every request: no 2xx, no canary or attribute token in the body, no value / callback / snapshot / stored-pairing change; final fence shows no EVENT on attacker connections; verification does not carry over.",
+         "trusted base: refctl; /identify is not counted as protected; the attacker model holds neither setup code nor paired key", "DESIGN.md §5 C01"),
+ "C02": ("exploration", "runtime monitoring: message-sequence exploration of the pair-setup state machine with a database-snapshot invariant after every message (in-process controller and real transport)",
+         "Every sequence up to length 2 (quick) / 3 (thorough) over a 16-symbol core alphabet, critical prefixes x the full 26-symbol alphabet, random sequences of length 3..8 on one or two connections sharing a database; invariant: stored entities change only by a genuine key exchange of an exchange whose SRP proof the monitor itself completed.",
+         "trusted base: refctl SRP/HKDF/AEAD use (self-tested); responses are not part of the verdict", "DESIGN.md §5 C02"),
+ "C03": ("exploration", "runtime monitoring: message-sequence exploration of pair-verify at the endpoint (session state observed after every message) and on a real transport (plaintext / ciphertext probes)",
+         "All sequences up to length 2 (quick) / 3 (thorough) over a 21-symbol alphabet plus random sequences, pairing sets of 0..3 controllers incl. a removed one, one or two connections; oracle: the session may become verified only by a finish that is genuine for the exchange opened by the last accepted start, every other message is answered with an error; full stack: plaintext still answered, ciphertext under peer-derived keys never served.",
+         "trusted base: refctl; the monitor builds every message and knows which are genuine", "DESIGN.md §5 C03"),
+ "C14": ("exploration", "runtime monitoring: structural invariants over generated accessory compositions built twice, served JSON checked by an independent decoder",
+         "Recipes (every accessory constructor, synthetic accessories from every service/characteristic constructor, linked/hidden/primary flags, explicit/automatic/colliding ids, up to 40 accessories) are built two or three times from scratch; ids unique, non-zero, deterministic; marshalled and served attribute database well-formed.",
+         "trusted base: encoding/json generic decoding, refctl for the served subset", "DESIGN.md §5 C14"),
+ "C17": ("exploration", "runtime monitoring: differential testing of tlv8.Marshal against an independent reflect-based reference encoder, round-trip checking, decoder fuzzing under recover",
+         "Boundary battery and random values of all 23 rtp message types and 26 synthetic structs covering every field kind; oracle: Unmarshal(Marshal(v)) == v, Marshal(v) == reference encoding, arbitrary bytes decode without panic; root-cause attribution by single-field isolation.",
+         "trusted base: the reference encoder in monitors/c17/refenc.go (written from the stated conventions)", "DESIGN.md §5 C17"),
 }
 NOT_YET = {
- "C01": "monitor not built yet in this commit (full-stack attacker histories; see DESIGN.md §5 C01)",
- "C02": "monitor not built yet in this commit (see DESIGN.md §5 C02)",
- "C03": "monitor not built yet in this commit (see DESIGN.md §5 C03)",
  "C09": "monitor not built yet in this commit (see DESIGN.md §5 C09)",
  "C10": "monitor not built yet in this commit (see DESIGN.md §5 C10)",
  "C11": "monitor not built yet in this commit (see DESIGN.md §5 C11)",
  "C12": "monitor not built yet in this commit (see DESIGN.md §5 C12)",
  "C13": "monitor not built yet in this commit (see DESIGN.md §5 C13)",
- "C14": "monitor not built yet in this commit (see DESIGN.md §5 C14)",
- "C17": "monitor not built yet in this commit (see DESIGN.md §5 C17)",
  "C20": "monitor not built yet in this commit (see DESIGN.md §5 C20)",
 }
 def main():
